@@ -2,6 +2,7 @@
 namespace Larking.Expected.C17
 
 def conds_CodecProto_ReadNext : List String := [
+   "func (CodecProto) ReadNext(b []byte, r io.Reader, limit int) ([]byte, int, error)",
    "for i := 0; i < binary.MaxVarintLen64; i++",
    "for i >= len(b)",
    "if len(b) == cap(b)",
@@ -21,13 +22,31 @@ def conds_CodecProto_ReadNext : List String := [
    "return b, n, nil"
   ]
 
+def stmts_CodecProto_ReadNext : List String := [
+   "i := 0",
+   "i++",
+   "b = append(b, 0)[:len(b)]",
+   "n, err := r.Read(b[len(b):cap(b)])",
+   "b = b[:len(b)+n]",
+   "size, n := protowire.ConsumeVarint(b)",
+   "b = b[n:]",
+   "n = int(size)",
+   "dst := make([]byte, len(b), growcap(cap(b), n))",
+   "copy(dst, b)",
+   "b = dst",
+   "_, err := io.ReadFull(r, b[len(b):n])",
+   "b = b[:n]"
+  ]
+
 def conds_CodecProto_WriteNext : List String := [
+   "func (CodecProto) WriteNext(w io.Writer, b []byte) (int, error)",
    "if _, err := w.Write(sizeBuf); err != nil",
    "return 0, err",
    "return w.Write(b)"
   ]
 
 def conds_CodecJSON_ReadNext : List String := [
+   "func (CodecJSON) ReadNext(b []byte, r io.Reader, limit int) ([]byte, int, error)",
    "for i := 0; i < int(limit); i++",
    "for i >= len(b)",
    "if len(b) == cap(b)",
@@ -51,11 +70,28 @@ def conds_CodecJSON_ReadNext : List String := [
    "return b, 0, &protodelim.SizeTooLargeError{Size: uint64(len(b)), MaxSize: uint64(limit)}"
   ]
 
+def stmts_CodecJSON_ReadNext : List String := [
+   "var ( braceCount int isString bool isEscaped bool )",
+   "i := 0",
+   "i++",
+   "b = append(b, 0)[:len(b)]",
+   "n, err := r.Read(b[len(b):cap(b)])",
+   "b = b[:len(b)+n]",
+   "isEscaped = false",
+   "isEscaped = true",
+   "isString = false",
+   "braceCount++",
+   "braceCount--",
+   "isString = true"
+  ]
+
 def conds_CodecJSON_WriteNext : List String := [
+   "func (CodecJSON) WriteNext(w io.Writer, b []byte) (int, error)",
    "return w.Write(b)"
   ]
 
 def conds_codecHTTPBody_ReadNext : List String := [
+   "func (codecHTTPBody) ReadNext(b []byte, r io.Reader, limit int) ([]byte, int, error)",
    "for total < limit",
    "if len(b) == cap(b)",
    "if err == io.EOF && total > limit",
@@ -65,7 +101,16 @@ def conds_codecHTTPBody_ReadNext : List String := [
    "return b, limit, nil"
   ]
 
+def stmts_codecHTTPBody_ReadNext : List String := [
+   "total := len(b)",
+   "b = append(b, 0)[:len(b)]",
+   "n, err := r.Read(b[len(b):cap(b)])",
+   "b = b[:len(b)+n]",
+   "total += int(n)"
+  ]
+
 def conds_growcap : List String := [
+   "func growcap(oldcap, wantcap int) (newcap int)",
    "if wantcap > oldcap*2",
    "if oldcap < 1024",
    "for 0 < newcap && newcap < wantcap",
@@ -74,12 +119,43 @@ def conds_growcap : List String := [
   ]
 
 def conds_muxOptions_readAll : List String := [
+   "func (*muxOptions) readAll(b []byte, r io.Reader) ([]byte, error)",
    "for",
    "if len(b) == cap(b)",
    "if total > int64(o.maxReceiveMessageSize)",
    "return nil, fmt.Errorf(\"max receive message size reached\")",
    "if err != nil",
    "return b, err"
+  ]
+
+def conds_streamHTTP_readMsg : List String := [
+   "func (*streamHTTP) readMsg(c Codec, b []byte) (int, []byte, error)",
+   "if s.rEOF",
+   "return s.recvCount, nil, io.EOF",
+   "if s.method.desc.IsStreamingClient()",
+   "if !ok",
+   "return count, nil, fmt.Errorf(\"codec %q does not support streaming\", codec.Name())",
+   "if err == io.EOF",
+   "switch",
+   "case n > 0",
+   "case len(b) > 0",
+   "return count, b[:n], err",
+   "if err == io.EOF",
+   "return count, b, err"
+  ]
+
+def stmts_streamHTTP_readMsg : List String := [
+   "count := s.recvCount",
+   "s.recvCount += 1",
+   "codec, ok := c.(StreamCodec)",
+   "b = append(b, s.rbuf...)",
+   "b, n, err := codec.ReadNext(b, s.r, s.opts.maxReceiveMessageSize)",
+   "s.rEOF = true",
+   "err = nil",
+   "err = io.ErrUnexpectedEOF",
+   "s.rbuf = append(s.rbuf[:0], b[n:]...)",
+   "b, err := s.opts.readAll(b, s.r)",
+   "s.rEOF, err = true, nil"
   ]
 
 end Larking.Expected.C17
